@@ -11,7 +11,7 @@ cd $WT || exit 2
 git checkout -q -- . 
 git apply --check seed_$K.diff || { echo "patch does not apply"; exit 2; }
 git apply seed_$K.diff
-TESTS_RESULT=$(PYTHONPATH=$WT/src timeout 1500 /venv/bin/python -m pytest -q -p no:cacheprovider --timeout=900 "$@" 2>&1 | tail -1)
+TESTS_RESULT=$(PYTHONPATH=$WT/src timeout 1500 /venv/bin/python -m pytest -q -p no:cacheprovider --timeout=300 "$@" 2>&1 | grep -E " passed| failed| error" | grep "=====" | tail -1)
 PYTHONPATH=$WT/src timeout 180 /venv/bin/python demo_$K.py > $OUT/demo_with.log 2>&1; WITH=$?
 git checkout -q -- .
 PYTHONPATH=$WT/src timeout 180 /venv/bin/python demo_$K.py > $OUT/demo_without.log 2>&1; WITHOUT=$?
